@@ -4,10 +4,15 @@ from ..prng import Rng
 
 ID = "C04"
 LEVEL = "exploration"
-RUNS = {"quick": 1500, "thorough": 60000}
+NSWEEP1 = sum(6 ** k for k in range(1, 7))       # all OH* sequences up to length 6 on one thread
+NSWEEP2 = sum(12 ** k for k in range(1, 5))      # up to length 4 on two threads sharing one CPU
+NRANDOM = {"quick": 1500, "thorough": 60000}
+RUNS = {"quick": NRANDOM["quick"], "thorough": NRANDOM["thorough"] + NSWEEP1 + NSWEEP2}
+LETTERS = "xpcwre"
 RULE = ("seeded histories over the OH* alphabet (plus affinity and filler events) on 1-5 threads over 1-4 CPUs "
         "in 1-2 looms; 1/3 of the histories carry one injected illegal move or end with a thread not dead; "
-        "distinct = hash of the action list; non-trivial = the history contains a pause/cool/warm cycle or an injected fault")
+        "thorough adds the bounded-exhaustive sweep: all %d sequences over the six OH* letters up to length 6 on one thread and all %d up to "
+        "length 4 on two threads sharing a CPU (quick samples 5%% of its runs from it); distinct = hash of the action list; non-trivial = the history contains a pause/cool/warm cycle or an injected fault") % (NSWEEP1, NSWEEP2)
 REAL = ["ovniemu (src/emu/**) built from /repo's working tree"]
 STUB = ["libovni replaced by the independent trace writer sim/tracefmt.py", "traced machine = sim/world.py reference model"]
 ASSUMPTIONS = ["OHx on a dead thread is never generated (left open by the property)",
@@ -18,7 +23,37 @@ def keys(kind, ty):
     return kind == "thread" and ty in (2, 4, 6)
 
 
+def sweep_case(n):
+    """n-th member of the bounded-exhaustive sweep."""
+    if n < NSWEEP1:
+        nth, base, maxlen = 1, 6, 6
+    else:
+        n -= NSWEEP1
+        nth, base, maxlen = 2, 12, 4
+    L = 1
+    while n >= base ** L:
+        n -= base ** L
+        L += 1
+    seq = []
+    for _ in range(L):
+        seq.append(n % base)
+        n //= base
+    desc = {"looms": [{"name": "node.0", "phyids": [0], "skew": 0,
+                       "procs": [{"pid": 10, "appid": 1, "rank": None, "nranks": None, "threads": [100 + i for i in range(nth)]}]}],
+            "models": [], "marks": {}}
+    acts = []
+    for sym in seq:
+        ti, v = (sym // 6, LETTERS[sym % 6]) if nth == 2 else (0, LETTERS[sym])
+        pl = mgen.ohx_payload(0, 100 + ti).hex() if v == "x" else ""
+        acts.append([ti, "OH" + v, pl, None, 1])
+    return {"world": desc, "actions": acts, "faults": {"bounded-exhaustive sweep member": 1}, "probes": {}, "nontrivial": True, "sweep": True}
+
+
 def gen(rng, tier, idx):
+    if tier == "thorough" and idx >= NRANDOM["thorough"]:
+        return sweep_case(idx - NRANDOM["thorough"])
+    if tier == "quick" and idx % 20 == 19:
+        return sweep_case(rng.derive("sweep").below(NSWEEP1 + NSWEEP2))
     desc = mgen.gen_world_desc(rng.derive("world"), nlooms=(1, 2), ncpus=(1, 4), nprocs=(1, 2), nthreads=(1, 3))
     g = mgen.Gen(rng.derive("workload"), desc, knobs={"w_state": 45, "w_aff": 15, "w_region": 0, "w_flush": 3,
                                                        "w_filler": 8, "w_idle": 0})
